@@ -57,8 +57,8 @@ CHECKS = {
         design="DESIGN.md §4 C06",
     ),
     "C07": dict(
-        rules="R07.1-R07.9",
-        what="commit-before-reply in the worker for both phases; readiness gating by not_ready_count and interface-only done marking in the coordinator; agreement of the step sets of the sequential and the two-phase path; commit before the first broadcast; coordinator-side import errors recorded, shipped for every module of the batch and replayed by the worker",
+        rules="R07.1-R07.11",
+        what="commit-before-reply in the worker for both phases; readiness gating by not_ready_count and interface-only done marking in the coordinator; agreement of the step sets of the sequential and the two-phase path; commit before the first broadcast; coordinator-side import errors recorded, shipped for every module of the batch and replayed by the worker; the options sent to workers keep the order of per-module config sections; build-wide BuildManager state that module processing adds to and build_inner reads after dispatch is returned by workers (known finding: missing_stub_packages)",
         quant="schedules of batches over workers",
         technique="CFG must-pass-through queries, guard-chain (control dependence) checks, sibling cross-check of step sets",
         note="Nothing about real interleavings is decided; these are the orderings any schedule relies on. tables/R07.3.json holds the four explained step differences.",
